@@ -3,7 +3,7 @@ from common import T_COMMON
 CFG = dict(
     gen=[dict(spec="transform.json", out="Transform.lean")],
     theorems=["unweld_spec", "unweld_idem", "removeUnreferenced_spec", "removeUnreferenced_allReferenced", "filterAttr_allReferenced", "flip_spec", "flip_flip", "flip_rejects",
-              "toPointCloud_spec", "split_single", "split_rejects_non_triangle", "split_partition", "split_spec", "weld_corners", "weld_representative", "weld_survivors", "weld_spec", "append_spec", "append_rejects", "filterAttr_spec", "crop_spec", "removeNullFaces_spec", "filterAttr_rejects", "crop_rejects", "removeNullFaces_rejects", "weld_rejects", "setAttr_spec", "modifyAttr_spec", "mapAttr_spec", "modifyAttr_rejects",
+              "toPointCloud_spec", "split_single", "split_rejects_non_triangle", "split_partition", "split_spec", "weld_corners", "weld_representative", "weld_survivors", "weld_spec", "append_spec", "append_rejects", "append_cornersOrZero", "repeatMesh_corners", "filterAttr_spec", "crop_spec", "removeNullFaces_spec", "filterAttr_rejects", "crop_rejects", "removeNullFaces_rejects", "weld_rejects", "setAttr_spec", "modifyAttr_spec", "mapAttr_spec", "modifyAttr_rejects",
               "translate_spec", "scaleAbout_spec", "scaleMesh_spec", "rotate_spec", "applyTRS_spec", "center_spec",
               "normalize_spec", "laplacian_frame", "smoothNormals_frame", "flatNormals_frame"],
     streams=[dict(name="c03", n=dict(quick=400, thorough=40000),
@@ -12,8 +12,7 @@ CFG = dict(
     trusted=T_COMMON + [
         "hand-written pure models PolyVerif/Model/{Mesh,MeshOps}.lean of modeling/mesh.go and modeling/meshops/*.go; tied to the "
         "code on every run by bit-exact comparison of complete result meshes on generated inputs"],
-    residue=["repeat_corners not stated (repeat.Mesh covered per step by append_spec + mapAttr_spec and by C02.repeatMesh_wf)",
-             "value maps of SmoothNormals / FlatNormals / LaplacianSmooth are definitions tied bit-for-bit (Laplacian: 16 ulps / 1e-9, Go map order) to the code; "
+    residue=["value maps of SmoothNormals / FlatNormals / LaplacianSmooth are definitions tied bit-for-bit (Laplacian: 16 ulps / 1e-9, Go map order) to the code; "
              "only their frame is proved; Laplacian order-independence over a commutative ring not proved",
              "crop_spec is for identity-indexed point clouds: CropFloat3Attribute ignores the incoming indices (observation, see notes/C03.md)",
              "IEEE rounding of the transform maps; Tri.Area3D (keep decision passed to the model); SliceByPlane, ScaleAttributeAlongNormal, 2-D variants, "
